@@ -120,7 +120,8 @@ impl Prop for C07 {
         let mut mix = FrameMix::swarm(rng);
         mix.keepalive = if rng.chance(1, 8) { 0 } else { rng.range(5, 60) };
         mix.tiny_other = rng.range(5, 60);
-        mix.ver = 2;
+        mix.ver = rng.range(1, 12);
+        mix.ver_mostly_9 = rng.chance(1, 2);
         let target = match rng.below(10) {
             0 => rng.usize(2000, 9000),
             _ => rng.usize(4, 300),
@@ -170,7 +171,12 @@ impl Prop for C07 {
         let cancels = imp == Imp::Tokio && rng.chance(1, 4);
         let pre = if cancels { rng.usize(1, 30) } else { rng.below(4) as usize };
         for _ in 0..pre {
-            if cancels && rng.chance(2, 3) {
+            if cancels && rng.chance(1, 8) {
+                ops.push(AppOp::WriteCancel {
+                    frame: gen::gen_out_frame(rng, mode, stats),
+                    polls: rng.below(3) as u32,
+                });
+            } else if cancels && rng.chance(2, 3) {
                 ops.push(AppOp::ReadCancel {
                     polls: rng.below(5) as u32,
                 });
@@ -192,7 +198,8 @@ impl Prop for C07 {
         StreamScenario {
             imp,
             mode,
-            verify_version: false,
+            // with the gate on, a rejected VER must not cause anything to be written either
+            verify_version: rng.chance(1, 3),
             explicit_gate: true,
             flushes,
             buffered,
